@@ -45,8 +45,12 @@ def run(tier, vd):
     vd.add_validation(r5)
     if not r5["hits"].get("W6"):
         raise ToolError("lowpan world: no neighbour-discovery message was seen (W6 never exercised)")
+    # ... and a one-frame UDP datagram to a multicast group (scopes and group identifiers around the compressed forms)
+    # must tile its frame: MAC header, IPHC, NHC UDP, payload (W7)
+    if not r5["hits"].get("W7"):
+        raise ToolError("lowpan world: no multicast datagram was read (W7 never exercised)")
     r5b = dict(r5)
-    r5b["viol"] = [v for v in r5["viol"] if v["rule"] in ("W6", "PANIC")]
+    r5b["viol"] = [v for v in r5["viol"] if v["rule"] in ("W6", "W7", "PANIC")]
     report_viols(vd, "C10", r5b, {"world": "lowpan"}, lambda v: {"rule": v["rule"], "world": "lowpan"}, lambda v: "lowpan %s %s" % (v["rule"], v["p"]), per_class=1)
     vd.cov["samples"].append({"kind": "ingress row with reply frames (source ownership, well-formedness flags from the independent parser)", "events": [e for e in read_ndjson(itf) if e.get("ev") == "row" and e.get("out")][:3]})
 
